@@ -26,8 +26,25 @@ class Sym:
         return f'Sym({self.name},{self.lo},{self.hi})'
 
 
+class SymVer:
+    """Placeholder for a version string `a.b.c[b1]` whose components are symbolic integers (C19)."""
+
+    def __init__(self, name, hi=1000):
+        self.name, self.hi = name, hi
+
+    def parts(self):
+        return [Sym(f'{self.name}_{k}', 0, self.hi) for k in ('maj', 'min', 'pat')] + [Sym(f'{self.name}_pre', 0, 1)]
+
+    def text(self, model):
+        a, b, c, pre = (model.get(s.name, 0) for s in self.parts())
+        return f'{a}.{b}.{c}' + ('b1' if pre else '')
+
+    def __repr__(self):
+        return f'SymVer({self.name})'
+
+
 def materialize(obj, f):
-    if isinstance(obj, Sym):
+    if isinstance(obj, (Sym, SymVer)):
         return f(obj)
     if isinstance(obj, dict):
         return {k: materialize(v, f) for k, v in obj.items()}
@@ -42,6 +59,9 @@ def collect_syms(obj, acc=None):
     acc = {} if acc is None else acc
     if isinstance(obj, Sym):
         acc[obj.name] = obj
+    elif isinstance(obj, SymVer):
+        for s in obj.parts():
+            acc[s.name] = s
     elif isinstance(obj, dict):
         for v in obj.values():
             collect_syms(v, acc)
@@ -196,7 +216,9 @@ class PipeCase:
         _captured_lines['top'] = None
         _captured_lines['predef'] = []
 
-        def mk(s: Sym):
+        def mk(s):
+            if isinstance(s, SymVer):
+                return shims.SymVersionToken(s.name, [ctx.sym(p.name, p.lo, p.hi) for p in s.parts()], bits=max(1, s.hi.bit_length()))
             return ctx.sym(s.name, s.lo, s.hi)
         # declare every symbol up front, in a fixed order
         for name, s in sorted(self.symbols().items()):
@@ -242,7 +264,8 @@ class PipeCase:
 
     # ---- concrete replay through the real CLI ----
     def concrete_config(self, model: dict) -> dict:
-        return materialize(self.config, lambda s: model.get(s.name, s.lo if s.lo is not None else 0))
+        return materialize(self.config, lambda s: s.text(model) if isinstance(s, SymVer) else model.get(
+            s.name, s.lo if s.lo is not None else 0))
 
     def concrete_predefined(self, model: dict):
         out = []
